@@ -3,8 +3,10 @@ Line-protocol driver: reads one operation per line from stdin, applies it to the
 exactly one result line per operation.  The harness runs the real implementation on the same lines.
 -/
 import Emu2a.Model.Dump
+import Emu2a.Model.Ops
 import Emu2a.Spec.AluSpec
 import Emu2a.Spec.BusMap
+import Emu2a.Spec.Supervision
 open Emu2a
 
 def stepFuel : Nat := 100000
@@ -69,6 +71,7 @@ def applyOp (s : St) (ws : List String) : St × String :=
     | some n => ok (Nat.rec (motive := fun _ => Machine) m (fun _ acc => acc.clockEdge) n)
     | none => bad
   | ["clock"] =>
+    if m.opPanics stepFuel .clock then (s, "panic") else
     match m.keyClock stepFuel with
     | some m' => ok m'
     | none => (s, "nofuel")
@@ -140,6 +143,20 @@ def applyOp (s : St) (ws : List String) : St × String :=
     | some v => ({ s with m := m.mapBoard (·.setDi1 v), bspec := s.bspec.setDi1 v }, "ok")
     | none => bad
   | ["spec.busd"] => (s, s.bspec.str)
+  | ["spec.run", pre, wait, wrote, sp, pc, ss, ps, loads, lb] =>
+    match boolOf wait, boolOf wrote, sp.toNat?, pc.toNat?, parseSS ss, parsePS ps, boolOf loads, lb.toNat? with
+    | some wait, some wrote, some sp, some pc, some ss, some ps, some loads, some lb =>
+      let pre := if pre = "R" then RunState.running else if pre = "S" then .stopped else .error
+      (s, (SupSpec.runAfter pre wait wrote sp pc ss ps loads lb).str)
+    | _, _, _, _, _, _, _, _ => bad
+  | ["spec.valid", run, sp, pc, ss, ps] =>
+    match sp.toNat?, pc.toNat?, parseSS ss, parsePS ps with
+    | some sp, some pc, some ss, some ps =>
+      (s, if run = "R" && !(SupSpec.spOK ss sp && SupSpec.pcOK ps pc) then "INVALID-WHILE-RUNNING" else "ok")
+    | _, _, _, _ => bad
+  | ["spec.absorb", "edges"] => (s, "same")
+  | ["spec.absorb", "state", st] => (s, st)
+  | ["spec.nopanic"] => (s, "ok")
   | ["d"] => (s, m.str)
   | ["ram"] => (s, ramStr m.core.bus.ram)
   | ["done"] => (s, b01 m.core.done)
